@@ -412,6 +412,7 @@ func (s *UDPNATRelay) recvFromServerConnGeneric(ctx context.Context, lnc *udpRel
 
 		select {
 		case entry.natConnSendCh <- queuedPacket:
+			verifhook.At("relay.recv.enqueued", s, clientAddrPort)
 		default:
 			if ce := lnc.logger.Check(zap.DebugLevel, "Dropping packet due to full send channel"); ce != nil {
 				ce.Write(
